@@ -99,12 +99,12 @@ func (w *walker) dispatch(call *ast.CallExpr, fun ast.Expr, fv Value, args []Val
 		w.callFunc(fv, call, args, st, k)
 		return
 	}
-	w.opaque(call, fv, st, k)
+	w.opaque(call, fv, args, st, k)
 }
 
-func (w *walker) opaque(call *ast.CallExpr, fv Value, st *state, k func(*state, Value)) {
+func (w *walker) opaque(call *ast.CallExpr, fv Value, args []Value, st *state, k func(*state, Value)) {
 	st = st.clone()
-	ev := &Event{Kind: KCall, Pos: call.Pos(), Node: call, Call: call, FunVal: fv}
+	ev := &Event{Kind: KCall, Pos: call.Pos(), Node: call, Call: call, FunVal: fv, ArgVals: args}
 	ev.Callee = w.staticCallee(call, st.fr())
 	if ev.Callee == nil && fv.Fn != nil {
 		ev.Callee = fv.Fn
@@ -208,11 +208,11 @@ func (w *walker) callFunc(fv Value, call *ast.CallExpr, args []Value, st *state,
 	// interface method: dynamic
 	if recvNamed != nil {
 		if _, isIface := recvNamed.Underlying().(*types.Interface); isIface {
-			w.opaque(call, fv, st, k)
+			w.opaque(call, fv, args, st, k)
 			return
 		}
 	} else if sig, ok := callee.Type().(*types.Signature); ok && sig.Recv() != nil {
-		w.opaque(call, fv, st, k) // method of an unnamed/interface receiver
+		w.opaque(call, fv, args, st, k) // method of an unnamed/interface receiver
 		return
 	}
 	switch {
@@ -236,7 +236,7 @@ func (w *walker) callFunc(fv Value, call *ast.CallExpr, args []Value, st *state,
 			k(ok, Value{Kind: VBool, Bool: true})
 			k(st.clone(), Value{Kind: VBool, Bool: false})
 		default:
-			w.opaque(call, fv, st, k)
+			w.opaque(call, fv, args, st, k)
 		}
 		return
 	case pkg == ModPath+"/broadcast" && recvName == "Broadcast":
@@ -284,7 +284,7 @@ func (w *walker) callFunc(fv Value, call *ast.CallExpr, args []Value, st *state,
 		w.inlineFunc(decl, fv, call, args, st, k)
 		return
 	}
-	w.opaque(call, fv, st, k)
+	w.opaque(call, fv, args, st, k)
 }
 
 // atomicOp models Load/Store/Swap/CompareAndSwap/Add on a private local of atomic type.
